@@ -43,7 +43,9 @@ func c15CorpusCase(r *mon.Run, ci corpusItem) {
 		r.Count("corpus.plain_render_failed(C01's business)", 1)
 		return
 	}
-	cm := a2j.Build(name, src, a2j.Roots(), ci.Seed, a2j.Knobs{Comments: true})
+	// a third of the programs also get items that render nothing injected into every list (a comment next to a null
+	// item, a commented item followed only by null items …)
+	cm := a2j.Build(name, src, a2j.Roots(), ci.Seed, a2j.Knobs{Comments: true, Nulls: uint64(ci.Seed)%3 == 0})
 	if cm.Panic != "" {
 		r.Violate("comment-build-panic", c, "%s: %s", shortPath(name), mon.Trunc(cm.Panic, 600))
 		return
